@@ -718,6 +718,10 @@ impl TcpConnector {
 //@extract file=actix-tls/src/connect/tcp.rs item="impl TcpConnector / fn service" ret=r props=C19 name=tcp::connector_service
 //@spec
 //@end
+//@extract file=actix-tls/src/connect/tcp.rs item="impl<R: Host> ServiceFactory<ConnectInfo<R>> for TcpConnector / fn new_service" ret=r props=C19 name=tcp::connector_new_service sig_replace="fn new_service(&self, _: ())=>fn new_service(&self, _unused: ())"
+//@spec
+    ensures r.val matches Some(Ok(_)),     // [C19] building the TCP connector service cannot fail
+//@end
 }
 impl TcpConnectorService { pub fn default() -> (r: TcpConnectorService) { TcpConnectorService } }
 /// `#[derive(Default)]` on ConnectorService / Connector: field-wise defaults (the built-in resolver)
